@@ -320,7 +320,7 @@ theorem flush_refines {c : Cbuf} (hi : Inv c) : abs (flush c) = Spec.flush (abs 
   have := hi.spos
   refine ⟨by simp [abs, flush, Spec.flush, contents, circRead], ?_⟩
   exact ⟨hi.dsize, hi.spos, hi.smin, hi.smax, hi.alloc, by simp [flush], by simp [flush], by simp [flush],
-    by simp [flush], by simp [flush], by simp [flush], by simp [flush]⟩
+    by simp [flush], by simp [flush], by simp [flush], by simp [flush], hi.mpos⟩
 
 theorem optSet_refines {c : Cbuf} (hi : Inv c) (v : Nat) :
     (optSet c v).1 = (Spec.optSet (abs c) v).1 ∧ abs (optSet c v).2 = (Spec.optSet (abs c) v).2 ∧
@@ -328,13 +328,13 @@ theorem optSet_refines {c : Cbuf} (hi : Inv c) (v : Nat) :
   unfold optSet Spec.optSet Mode.ofNat?
   by_cases h0 : v = Gen.CBUF_NO_DROP
   · simp only [h0, if_true]
-    exact ⟨by first | rfl | trivial, by first | rfl | trivial, ⟨hi.dsize, hi.spos, hi.smin, hi.smax, hi.alloc, hi.used, hi.iin, hi.iout, hi.irep, hi.inout, hi.wrap, hi.rep⟩⟩
+    exact ⟨by first | rfl | trivial, by first | rfl | trivial, ⟨hi.dsize, hi.spos, hi.smin, hi.smax, hi.alloc, hi.used, hi.iin, hi.iout, hi.irep, hi.inout, hi.wrap, hi.rep, hi.mpos⟩⟩
   · by_cases h1 : v = Gen.CBUF_WRAP_ONCE
     · simp only [h0, h1, if_true, if_false]
-      exact ⟨by first | rfl | trivial, by first | rfl | trivial, ⟨hi.dsize, hi.spos, hi.smin, hi.smax, hi.alloc, hi.used, hi.iin, hi.iout, hi.irep, hi.inout, hi.wrap, hi.rep⟩⟩
+      exact ⟨by first | rfl | trivial, by first | rfl | trivial, ⟨hi.dsize, hi.spos, hi.smin, hi.smax, hi.alloc, hi.used, hi.iin, hi.iout, hi.irep, hi.inout, hi.wrap, hi.rep, hi.mpos⟩⟩
     · by_cases h2 : v = Gen.CBUF_WRAP_MANY
       · simp only [h0, h1, h2, if_true, if_false]
-        exact ⟨by first | rfl | trivial, by first | rfl | trivial, ⟨hi.dsize, hi.spos, hi.smin, hi.smax, hi.alloc, hi.used, hi.iin, hi.iout, hi.irep, hi.inout, hi.wrap, hi.rep⟩⟩
+        exact ⟨by first | rfl | trivial, by first | rfl | trivial, ⟨hi.dsize, hi.spos, hi.smin, hi.smax, hi.alloc, hi.used, hi.iin, hi.iout, hi.irep, hi.inout, hi.wrap, hi.rep, hi.mpos⟩⟩
       · simp only [h0, h1, h2, if_false]
         exact ⟨by first | rfl | trivial, by first | rfl | trivial, hi⟩
 
